@@ -62,6 +62,10 @@ func NewA(id resource.ID, v int) *A {
 	return typed.NewResource[ASpec, AE](resource.NewMetadata(aNS, aType, id, resource.VersionUndefined), ASpec{Val: v})
 }
 
+// curBNS is the namespace of the outputs of the behaviour that is running (behaviours run one after the other): the
+// configurations with SameNS keep inputs and outputs in ONE namespace (different types)
+var curBNS = bNS
+
 type BSpec struct{ Val int }
 
 func (b BSpec) DeepCopy() BSpec { return b }
@@ -69,13 +73,13 @@ func (b BSpec) DeepCopy() BSpec { return b }
 type BE struct{}
 
 func (BE) ResourceDefinition() meta.ResourceDefinitionSpec {
-	return meta.ResourceDefinitionSpec{Type: bType, DefaultNamespace: bNS}
+	return meta.ResourceDefinitionSpec{Type: bType, DefaultNamespace: curBNS}
 }
 
 type B = typed.Resource[BSpec, BE]
 
 func NewB(id resource.ID, v int) *B {
-	return typed.NewResource[BSpec, BE](resource.NewMetadata(bNS, bType, id, resource.VersionUndefined), BSpec{Val: v})
+	return typed.NewResource[BSpec, BE](resource.NewMetadata(curBNS, bType, id, resource.VersionUndefined), BSpec{Val: v})
 }
 
 type CSpec struct{ Val int }
@@ -321,6 +325,8 @@ type Config struct {
 	// Extra: a secondary input kind (qtransform: WithExtraMappedInput with a mapper secondary rN -> input rN; transform:
 	// WithExtraInputs); the transform reads the secondary of the same id: output = 10 * input + secondary (0 when absent)
 	Extra bool
+	// SameNS: inputs and outputs live in the same namespace
+	SameNS bool
 }
 
 var Configs = []Config{
@@ -338,6 +344,9 @@ var Configs = []Config{
 	{Name: "T", Fin: true, Optional: true},
 	{Name: "Q", Q: true, Fin: true, Concurrency: 2, Extra: true},
 	{Name: "T", Fin: true, Extra: true},
+	{Name: "T", Fin: true, SameNS: true},
+	{Name: "T", Fin: false, SameNS: true},
+	{Name: "Q", Q: true, Fin: true, Concurrency: 2, SameNS: true},
 }
 
 type gateT struct {
@@ -397,6 +406,11 @@ func (g *gateT) release() {
 }
 
 func runBehaviour(t *testing.T, tr *vh.Trace, tid string, cfg Config, beh []Cmd) {
+	curBNS = bNS
+	if cfg.SameNS {
+		curBNS = aNS
+	}
+
 	synctest.Test(t, func(t *testing.T) {
 		rootCtx, cancel := context.WithCancel(context.Background())
 		ctx := context.WithValue(rootCtx, extKey{}, true) // the external actor's context (never gated)
@@ -693,7 +707,7 @@ func runBehaviour(t *testing.T, tr *vh.Trace, tid string, cfg Config, beh []Cmd)
 			return out
 		}
 
-		emit(Line{Ev: "quiet", Ins: snap(aNS, aType), Outs: snap(bNS, bType), Exts: snap(cNS, cType)})
+		emit(Line{Ev: "quiet", Ins: snap(aNS, aType), Outs: snap(curBNS, bType), Exts: snap(cNS, cType)})
 
 		cancel()
 		<-runDone
